@@ -570,6 +570,7 @@ def execute(trace: dict) -> Outcome:
         nontrivial=nontrivial,
         abstract=abstract,
         steps=run.steps_done,
+        digest=run.final_digest,
     )
 
 
